@@ -200,7 +200,33 @@ BUILDS = {
 }
 
 
+def source_target_features(subdir=None, exclude=None):
+    """the `target_feature = "..."` names the current source is conditional on (a code path that exists only under a target feature is part of
+    the input space: it gets a harness build of its own, `tf-<feature>`)"""
+    feats = set()
+    root0 = os.path.join(REPO, "src")
+    for root, _, files in os.walk(root0):
+        rel = os.path.relpath(root, root0)
+        for f in files:
+            relf = os.path.normpath(os.path.join(rel, f))
+            if subdir is not None and not relf.startswith(subdir):
+                continue
+            if exclude is not None and relf.startswith(exclude):
+                continue
+            if f.endswith(".rs"):
+                feats |= set(re.findall(r'target_feature\s*=\s*"([A-Za-z0-9_.]+)"', open(os.path.join(root, f), errors="replace").read()))
+    return sorted(feats)
+
+
+def feature_build(feat):
+    name = "tf-" + feat
+    BUILDS[name] = ([], "-C target-feature=+%s" % feat, "target-tf-" + re.sub(r"[^A-Za-z0-9]", "_", feat))
+    return name
+
+
 def harness_build(build="dev"):
+    if build not in BUILDS and build.startswith("tf-"):
+        feature_build(build[3:])
     args, flags, tdir = BUILDS[build]
     env = {"RUSTFLAGS": ("--cfg %s %s" % (GUARD, flags)).strip(), "CARGO_NET_OFFLINE": "true", "CARGO_TARGET_DIR": os.path.join(HARNESS_DIR, tdir)}
     # the lock file must match the repository's; keep ours in sync (path dep resolution is offline)
@@ -246,3 +272,10 @@ def with_api_paths(reqs, rng, share=3):
 
 def driver_path():
     return os.path.join(LEAN_DIR, ".lake", "build", "bin", "urandom_model")
+
+
+def run_parallel(binary, reqs, workers=16, timeout=7200):
+    """one harness process per request line, concurrently (for the few requests that take seconds each)"""
+    from concurrent.futures import ThreadPoolExecutor
+    with ThreadPoolExecutor(max_workers=workers) as ex:
+        return list(ex.map(lambda q: (run_lines(binary, ["run"], [q], timeout=timeout)[1] or ["panic"])[0], reqs))
